@@ -1,7 +1,8 @@
 //go:build verif
 
 // Verification hook for property C14 (/verif): add-only accessors for the unexported cluster
-// de-duplication functions. No behaviour change; the file vanishes without the `verif` build tag.
+// de-duplication functions and for the outbound listener conflict rule. No behaviour change; the file
+// vanishes without the `verif` build tag.
 // (dedupeDomains / generateVirtualHostDomains are exposed by zz_verif_c12.go.)
 
 package core
@@ -13,6 +14,7 @@ import (
 	discovery "github.com/envoyproxy/go-control-plane/envoy/service/discovery/v3"
 
 	"istio.io/istio/pilot/pkg/model"
+	"istio.io/istio/pkg/config/protocol"
 )
 
 func verifC14Builder() *ClusterBuilder {
@@ -46,4 +48,43 @@ func VerifC14NormalizeClusterResources(names []string) []string {
 		res = append(res, r.Name+"#"+r.Version)
 	}
 	return res
+}
+
+// VerifC14Entry is what the conflict rule looks at (and leaves) in an outbound listener entry.
+type VerifC14Entry struct {
+	Protocol protocol.Instance
+	Locked   bool
+	Chains   int
+}
+
+// VerifC14OutboundConflict runs buildSidecarOutboundListener for one port of one service against a listener map
+// that holds `current` (or nothing) under the key {bind, port}. The current entry carries one filter chain that
+// conflicts with nothing the function builds, so a merge always shows as a grown chain list. It returns the entry
+// under the key afterwards (nil if none), whether it is a new entry object, and the number of keys in the map.
+func VerifC14OutboundConflict(node *model.Proxy, push *model.PushContext, svc *model.Service, port *model.Port, bind string,
+	current *VerifC14Entry,
+) (after *VerifC14Entry, replaced bool, keys int) {
+	lb := NewListenerBuilder(node, push)
+	actualWildcards, _ := getWildcardsAndLocalHost(node.GetIPMode())
+	m := map[listenerKey]*outboundListenerEntry{}
+	key := listenerKey{bind, port.Port}
+	var cur *outboundListenerEntry
+	if current != nil {
+		cur = &outboundListenerEntry{
+			servicePort: &model.Port{Name: "current", Port: port.Port, Protocol: current.Protocol},
+			bind:        listenerBinding{binds: []string{bind}},
+			locked:      current.Locked,
+			protocol:    current.Protocol,
+			chains:      []*filterChainOpts{{sniHosts: []string{"verif-c14.never.conflicts"}, transportProtocol: "tls"}},
+		}
+		m[key] = cur
+	}
+	lb.buildSidecarOutboundListener(outboundListenerOpts{
+		push: push, proxy: node, bind: listenerBinding{binds: []string{bind}}, port: port, service: svc,
+	}, m, nil, actualWildcards)
+	e := m[key]
+	if e == nil {
+		return nil, false, len(m)
+	}
+	return &VerifC14Entry{Protocol: e.protocol, Locked: e.locked, Chains: len(e.chains)}, e != cur, len(m)
 }
